@@ -236,5 +236,6 @@ def check(tier):
     ]
     for name, m in mut:
         ck.add_mutant(name, m, "cost", "harness.C15", "cost_job", dict(cases=[(2, 2, 2, 2, "list", False)]), fresh=True)
+    ck.validate = ['inference']
     ck.run()
     return ck.finish(replay=REPLAY)
